@@ -22,7 +22,7 @@ import os
 import re
 from typing import Any
 
-from detsim import corrupt, env, gen, monitors, rng
+from detsim import corrupt, env, gen, minimize, monitors, rng
 from detsim.observe import exc_token, observe_chart
 from detsim.sched import HarnessError, Scheduler
 
@@ -299,3 +299,5 @@ def shrink(plan: dict[str, Any]):
     for v in vs:
         if len(vs) > 1:
             yield {**plan, "variants": [v]}
+    if plan.get("concurrent"):
+        yield from minimize.shrink_schedule(plan)
